@@ -36,6 +36,7 @@ type evalCtx struct {
 	absIdx    *absIndex
 	varsAfter bool // parameters (entry values) shadow current source variables (ensures clauses)
 	undefLocals bool // a local variable without a value on this path evaluates to an arbitrary value
+	wantRef     bool // ref(x.f): the address of an aggregate field instead of its value
 }
 
 type absIndex struct {
@@ -723,8 +724,11 @@ func (cx *evalCtx) selectField(base TV, name string) (TV, error) {
 		ft := si.st.Field(fi).Type()
 		cur = TV{app(si.fields[fi], cur.S), s.sortOf(ft), ft}
 	}
-	// a by-reference aggregate at the end of the path is loaded as a value
+	// a by-reference aggregate at the end of the path is loaded as a value (unless its address is what is asked for: ref(x.f))
 	if pt, ok := cur.T.Underlying().(*types.Pointer); ok && isAggregate(pt.Elem()) && !types.Identical(cur.T, fv.Type()) {
+		if cx.wantRef {
+			return cur, nil
+		}
 		return r.loadAt(cx.st, cur.S, pt.Elem()), nil
 	}
 	return cur, nil
@@ -1074,6 +1078,14 @@ func (cx *evalCtx) call(x *ast.CallExpr) (TV, error) {
 				return TV{}, err
 			}
 			return TV{eq(app("i_tag", v.S), num(int64(r.eng.typeID(t)))), SBool, types.Typ[types.Bool]}, nil
+		case "ref":
+			// ref(x.f): the address of the struct-typed field f of *x (comparable with pointers to such structs)
+			if len(x.Args) != 1 {
+				return TV{}, fmt.Errorf("ref() takes one argument")
+			}
+			n := cx.sub()
+			n.wantRef = true
+			return n.goExpr(x.Args[0])
 		case "kcat", "kdrop", "pend", "hasSucc":
 			// the key theory of the engine (bytes: key mode): concatenation, suffix, prefix successor
 			as, err := cx.args(x.Args)
